@@ -126,5 +126,11 @@ func (p *Parser) parseTagElement() (INodeTag, *Error) {
 
 	p.template.level++
 	defer func() { p.template.level-- }()
-	return tag.parser(p, tokenName, argParser)
+	node, err := tag.parser(p, tokenName, argParser)
+	if err != nil {
+		// A tag may return an Error that says little more than what went wrong (see the
+		// documentation of Error): it occurred in this template, at this tag
+		return nil, err.updateFromTokenIfNeeded(p.template, tokenName)
+	}
+	return node, nil
 }
